@@ -111,7 +111,8 @@ def rand_program(rng):
             if wide and j == len(rows) - 1 and r == rows[0] and len(rows) > 1:
                 indent = rng.choice([0, 12, 16, 20])
             if indent == 0:
-                style = rng.choice([0, 0, 0, 0, 1, 14, 14, 15, 15, rng.randint(2, 13)])
+                # 16 / 17: the INDENT form of the preamble code with indent 0 (the code pycaption's SCCWriter uses)
+                style = rng.choice([0, 0, 0, 0, 1, 14, 14, 15, 15, rng.randint(2, 13), 16, 16, 17])
             else:
                 style = rng.choice([0, 0, 0, 1])
             tab = rng.choice([0, 0, 0, 1, 2, 3])
@@ -144,7 +145,7 @@ def sweep_programs():
                     out.append([doubled, [[[r, ind, tab, 0, text_items("Ab" if ind + tab <= 30 else "A")]]]])
                 if ind:                                           # underline bit of the indent preambles
                     out.append([doubled, [[[r, ind, 0, 1, text_items("un")]]]])
-            for style in range(16):                               # every colour / underline / italics preamble
+            for style in range(18):                               # every colour / underline / italics preamble + indent-0 form
                 load = [[r, 0, 0, style, text_items("st")]]
                 if r < 15:
                     load.append([r + 1, 0, 0, 0, text_items("pl")])   # a plain preamble on the next row ends italics
@@ -211,13 +212,22 @@ def double_codes(ws, mode, rng):
 
 
 W_ENM, W_EDM = int(g.ENM, 16), int(g.EDM, 16)
-LAYOUTS = ["line-per-load", "line-per-load", "no-enm", "edm-before-load", "edm-lines", "several-per-line", "split"]
+LAYOUTS = ["line-per-load", "line-per-load", "no-enm", "edm-before-load", "edm-lines", "several-per-line", "split",
+           "edm-inline", "edm-inline"]
 
 
-def build_stream(prog, words, clear, rng=None, layout="line-per-load", doubling="none", text="plain"):
-    """lay the loads out on timecode lines. The oracle does not depend on the layout."""
+W_EOC = int(g.EOC, 16)
+
+
+def build_stream(prog, words, clear, rng=None, layout="line-per-load", doubling="none", text="plain", inline=None):
+    """lay the loads out on timecode lines. The oracle does not depend on the layout.
+    layout 'edm-inline' (wave 7, the layout of pycaption's own SCCWriter): every load line is ENM RCL rows EDM EOC - the
+    words come from the Coq emitter emit_load_w (request 506, `inline`), the theorem C05_popon_refines_608_inline is
+    about exactly these lines when the doubling is 'none' or 'all'."""
     rng = rng or _random.Random(0)
     loads = []
+    if layout == "edm-inline":
+        words = inline if inline is not None else [list(ws[:-1]) + [W_EDM, W_EOC] for ws in words]
     for li, ws in enumerate(words):
         ws = list(ws)
         if layout == "no-enm" and ws and ws[0] == W_ENM:
@@ -403,6 +413,18 @@ def run(ctx):
     for p in sweep_programs():
         for dbl in ("none", "all"):
             progs.append(("sweep", p, "line-per-load", dbl, "plain"))
+    # wave 7: the writer's shape deterministically - indent-0-form preamble codes (attribute 16 / 17) on every row, the load
+    # line ending EDM EOC, two loads so that the EDM of the second load ends the first caption
+    for r in range(1, 16):
+        for st in (16, 17):
+            p = [False, [[[r, 0, 0, st, text_items("wr")]], [[16 - r, 0, 0, st, text_items("it")]] +
+                                                              ([[17 - r, 0, 0, 16, text_items("er")]] if r > 1 else [])]]
+            for dbl in ("none", "all"):
+                progs.append(("sweep", p, "edm-inline", dbl, "plain"))
+    for r in range(1, 15):                                        # an indent-0-form preamble code ends italics like any other
+        for p in ([False, [[[r, 0, 0, 14, text_items("it")], [r + 1, 0, 0, 16, text_items("pl")]]]],
+                  [False, [[[r + 1, 0, 0, 15, text_items("it")], [r, 0, 0, 17, text_items("pl")]]]]):
+            progs.append(("sweep", p, "edm-inline", "all", "plain"))
     dist["sweep_programs"] = len(progs)
     for p in enum_programs():
         for dbl in ("none", "all"):
@@ -413,9 +435,14 @@ def run(ctx):
                       rng.choice(["plain", "plain", "plain", "upper", "crlf", "trailing-blank"])))
     dist["random_programs"] = len(progs) - dist["sweep_programs"] - dist["enumerated_programs"]
     emitted = oracle_batch([(501, p) for _, p, _, _, _ in progs])
+    inl_idx = [i for i, pr in enumerate(progs) if pr[2] == "edm-inline"]
+    inl = dict(zip(inl_idx, oracle_batch([(506, progs[i][1]) for i in inl_idx])))
+    dist["edm_inline_programs_from_emit_load_w"] = len(inl_idx)
     cases = []
-    for (kind, p, layout, dbl, text), e in zip(progs, emitted):
-        stream = build_stream(p, e[2], e[3], _random.Random(rng.random()), layout, dbl, text)
+    for i, ((kind, p, layout, dbl, text), e) in enumerate(zip(progs, emitted)):
+        if i in inl and [list(ws[:-1]) + [W_EDM, W_EOC] for ws in e[2]] != [list(ws) for ws in inl[i]]:
+            res["disagreements"].append({"which": "emit_load_w (506) is not emit_load (501) with EDM before the EOC", "program": p})
+        stream = build_stream(p, e[2], e[3], _random.Random(rng.random()), layout, dbl, text, inl.get(i))
         cases.append((kind, p, e[0] == 1, e[1] == 1, stream, layout, dbl, text))
     obs, models, oks = judge_batch([(c[1], c[4]) for c in cases])
     # the text front end of the model is the Coq tokeniser (request 605); the Python copy of the reader's rules is run
@@ -511,7 +538,8 @@ def run(ctx):
                    "every code, backspace at a row start (x all-single / all-doubled); B: all item sequences of length <= 3 "
                    "over a 7-symbol alphabet x adjacent / non-adjacent second row x all-single / all-doubled; C: random "
                    "programs of 1-4 loads x 1-4 rows (35% with the shapes of the wide domain), layouts {line per load, no "
-                   "ENM, EDM before the load, EDM lines, several loads per line, split loads}, doubling {none, all, mixed "
+                   "ENM, EDM before the load, EDM lines, several loads per line, split loads, EDM inline before the EOC = the "
+                   "writer's layout (words from emit_load_w)}, doubling {none, all, mixed "
                    "per code}, text {plain, upper-case hex, CRLF, trailing blanks}; D: random pop-on soups. Non-trivial: "
                    "a sweep / enumerated program or a program with at least two rows, inside dom_c05_wide. Distinct "
                    "streams counted.")
@@ -523,11 +551,14 @@ def run(ctx):
                     "read_layout_invariant, every cutting / joining of these lines that keeps the instant of each word and "
                     "does not separate a mid-row code from a following punctuation word; at the level of the SCC text "
                     "through the Coq tokeniser: popon_refines_608_text)",
+                    "wave 7: the same for the layout of pycaption's own SCCWriter - Erase-Displayed-Memory inside the load line before "
+                    "its End-Of-Caption and preamble codes in the indent-0 form (attributes 16 / 17): popon_refines_608_inline, "
+                    "from inline_edm (the one line = the clear line + the load line, for every quiet body) and the frame lemma",
                     "a repeated control code pair counts once (every state, every word); PAC+TO doubled as a unit counts "
                     "once; italics balanced for all instruction lists"],
         "correspondence_only": ["that pycaption behaves like the model: characters / italics / lines / origin of every "
                                 "caption on every generated stream",
-                                "stream layouts outside the theorem (no ENM, EDM on the load's line, several loads per "
+                                "stream layouts outside the theorems (no ENM, EDM FIRST on the load's line, several loads per "
                                 "line, split loads), mixed doubling, the wide domain shapes: ok_c05 on the implementation",
                                 "text-level tokenisation (upper case, CRLF, trailing blanks): the model is fed through "
                                 "the Coq tokeniser (request 605; round trip on rendered text is a theorem); that the "
